@@ -171,7 +171,27 @@ theorem csdW_cosWin_tone_bin (a : ℕ → ℝ) (M n k : ℕ) (A p : ℝ) (ha : a
   rw [csdW_cosWin_tone_eq a M n k A p ha hk hkn]
   exact csd_tone_bin n k A p (by omega) (by omega)
 
-/-! ### SciPy's four windows -/
+/-- `util.tone_conv(s, fs, k·fs/n, window=w)` of a whole-cycle tone equals the unwindowed estimator -/
+theorem toneConvW_cosWin_tone_eq (a : ℕ → ℝ) (M n k : ℕ) (A p fs : ℝ) (hfs : fs ≠ 0) (ha : a 0 ≠ 0)
+    (hk : M < k) (hkn : 2 * (k + M) < n) :
+    toneConvW n (cosWin a (M + 1) n) (toneSig n k A p) fs (k * fs / n)
+      = toneConv n (toneSig n k A p) fs (k * fs / n) := by
+  have hn : 0 < n := by omega
+  have hre : (toneConvW n (cosWin a (M + 1) n) (toneSig n k A p) fs (k * fs / n)).re
+      = (toneConv n (toneSig n k A p) fs (k * fs / n)).re := by
+    rw [toneConvW, toneConv_re_eq n k _ fs hfs hn, toneConv_re_eq n k _ fs hfs hn,
+      dftBin_cosWin_tone a M n k A p ha hk hkn]
+  have him : (toneConvW n (cosWin a (M + 1) n) (toneSig n k A p) fs (k * fs / n)).im
+      = (toneConv n (toneSig n k A p) fs (k * fs / n)).im := by
+    rw [toneConvW, toneConv_im_eq n k _ fs hfs hn, toneConv_im_eq n k _ fs hfs hn,
+      dftBin_cosWin_tone a M n k A p ha hk hkn]
+  cases hx : toneConvW n (cosWin a (M + 1) n) (toneSig n k A p) fs (k * fs / n)
+  cases hy : toneConv n (toneSig n k A p) fs (k * fs / n)
+  rw [hx, hy] at hre him
+  simp only at hre him
+  rw [hre, him]
+
+/-! ### SciPy's windows -/
 
 theorem CosWindow.terms_pos (w : CosWindow) : w.terms = (w.terms - 1) + 1 := by
   cases w <;> rfl
